@@ -617,7 +617,9 @@ static void build_instances(void)
 	addi(1, op_expand, "expand", A, SZ_CAP, 0, 0, 1);
 	addi(1, op_expand, "expand", A, 4097, 0, 0, 1);
 	addi(0, op_prepend_buffer, "prepend_buffer(A<-B)", A, B, 0, 0, 1);
-	addi(1, op_prepend_buffer, "prepend_buffer(B<-A)", B, A, 0, 0, 1);
+	/* core: with add(A), reserve2-only(A) (A = data chain + trailing empty chain), addB this reaches
+	 * PREPEND_CHAIN with a source that ends in an empty chain at depth 4 (seed C12-prepend-chain-last-with-datap) */
+	addi(0, op_prepend_buffer, "prepend_buffer(B<-A)", B, A, 0, 0, 1);
 	addi(0, op_reserve, "reserve1+commit", A, 1, SZ_CAPP1, CM_REQ, 1);
 	addi(0, op_reserve, "reserve2+commit", A, 2, SZ_CAPP1, CM_REQ, 1);
 	addi(0, op_reserve, "reserve2-only", A, 2, SZ_CAPP1, CM_NONE, 1);
@@ -665,6 +667,7 @@ static void build_instances(void)
 	addi(1, op_prepend, "prependB", B, 2, 0, 0, 1);
 	addi(2, op_pullup, "pullupB", B, SZ_NEG, 0, 0, 1);
 	addi(2, op_expand, "expandB", B, SZ_CAPP1, 0, 0, 1);
+	addi(1, op_reserve, "reserve2-onlyB", B, 2, SZ_CAPP1, CM_NONE, 1);
 	addi(1, op_add_buffer_reference, "add_buffer_reference(B<-A)", B, A, 0, 0, 4);
 	addi(1, op_add_buffer_reference, "add_buffer_reference(A<-B)", A, B, 0, 0, 4);
 	addi(2, op_add_buffer, "add_buffer(A<-A)", A, A, 0, 0, 1);
